@@ -23,7 +23,7 @@ def profiles(avoid):
 def run(tier):
     ck = Check("C09", tier)
     quick = tier == "quick"
-    common.build(["hook"])
+    common.build(["hook", "hookfast", "rel"])
     common.replay_witnesses(ck, ["hook"])
     common.replay_known(ck)
     avoid = ck.findings.avoid_tags()
@@ -69,7 +69,14 @@ def run(tier):
         ck.count("scale_programs")
         ck.count("scale_template_" + _p["scale"][0])
         plist.append(_p)
-    checked, discarded = modelcheck.check_programs(ck, plist, on_result=seen)
+    # also on the builds whose active-fiber access is the raw pointer (unchecked fast paths): hooked (dispatch monitor
+    # asserts at every instruction that the raw pointer denotes the rooted active fiber) and plain release
+    checked, discarded = modelcheck.check_programs(ck, plist, on_result=seen, opts={"gc": "always", "quarantine": 1, "dispatch": 1},
+                                                   extra_cfgs=("hookfast", "rel"),
+                                                   # of the dispatch monitor's checks only the fiber-pointer ones belong here (the
+                                                   # operand-level contract is C04's, with its own known findings)
+                                                   event_filter=lambda ev: not ev["sig"].startswith("Dispatch(") or ev["sig"] in (
+                                                       "Dispatch(RawFiberPointerIncoherent)", "Dispatch(ActiveChunkNotFrameChunk)"))
     ck.coverage["programs_checked"] = checked
     ck.coverage["programs_discarded_by_model"] = discarded
     # relation B: body moved into a fiber that is called once
